@@ -822,6 +822,8 @@ theorem hbTry_some {s : State} {sc : Nat → Int} {t : Nat} {m removed : List Na
     ∧ r.mesh = m3 ++ a.2.2 ∧ r.graft = a.1 ++ a.2.1 ++ a.2.2
     ∧ r.prune = m.filter (fun p => decide (sc p < 0)) ++ removed := by
   unfold hbTry at h
+  simp only at h
+  intro m0 m1 m2 m3
   split at h
   · rename_i hok
     simp only [Bool.and_eq_true] at hok
